@@ -307,7 +307,31 @@ fn gen_enc_history<C: RangeCombo>(rng: &mut Rng, w: u32, s: u32, bps: &[(u32, Ve
         let r = rng.next() % 40;
         let op: String = if r < 24 {
             let (b, p) = fixed_bp.unwrap_or_else(|| pick_bp(rng, bps));
-            if r == 0 {
+            if r == 1 || r == 2 {
+                // batch forms: encode_symbols / try_encode_symbols / encode_iid_symbols with one table,
+                // sometimes failing part-way (impossible symbol in the middle, `Err` item)
+                let cdf = if rng.chance(1, 2) { gen_cdf(rng, p) } else { steer::<C>(rng, &e, w, s, p, &pool, b).0 };
+                let k = (rng.next() % 6) as usize;
+                let mut syms: Vec<usize> = (0..k).map(|_| rng.below(cdf.len() as u128 - 1) as usize).collect();
+                let form = *rng.pick(&[0u32, 2, 4]);
+                let mut fail_at: Option<usize> = None;
+                let mut err_at: Option<usize> = None;
+                if k > 0 && rng.chance(1, 3) {
+                    let j = rng.below(k as u128) as usize;
+                    if form == 2 && rng.chance(1, 2) {
+                        err_at = Some(j);
+                    } else {
+                        syms[j] = cdf.len() - 1 + (rng.next() % 3) as usize;
+                    }
+                    fail_at = Some(j);
+                }
+                let o = guarded(|| C::enc_batch(&mut e, b, p, form, &cdf, &syms, err_at));
+                alive = matches!(o, Ok(Some(ref x)) if x == "ok" || x == "impossible" || x == "modelerr");
+                for _ in 0..fail_at.unwrap_or(k) {
+                    encoded.push((b, p, cdf.clone()));
+                }
+                format!("encs {:x} {:x} {:x} {} {} {}", b, p, form, show_list(cdf.clone()), show_list(syms.iter().map(|&x| x as u128).collect::<Vec<_>>()), err_at.map(|j| hex(j as u128)).unwrap_or("-".into()))
+            } else if r == 0 {
                 // arbitrary (possibly invalid) numeric pair within the probability type
                 let cum = rng.bits_biased(b);
                 let pr = rng.bits_biased(b).max(1);
@@ -336,7 +360,7 @@ fn gen_enc_history<C: RangeCombo>(rng: &mut Rng, w: u32, s: u32, bps: &[(u32, Ve
                     ts.extend(extra);
                     if ts.is_empty() { "decoder".into() } else { format!("decoder {}", triples_str(&ts)) }
                 }
-                29 => "nw".into(),
+                29 => if rng.chance(1, 2) { "nw".into() } else { "full".into() },
                 30 => "nb".into(),
                 31 => "empty".into(),
                 32 => "pos".into(),
@@ -369,15 +393,32 @@ fn gen_enc_history<C: RangeCombo>(rng: &mut Rng, w: u32, s: u32, bps: &[(u32, Ve
     // closing sequence: everything observable about the final encoder, then the decoder side
     nsnaps += 1;
     snap_at.push(encoded.len());
-    line.push_str(" | raw | nw | empty | getc | raw | export | spec | snap | intodec | raw");
+    line.push_str(" | raw | nw | empty | full | getc | raw | export | spec | snap");
+    line.push_str(if rng.chance(1, 2) { " | intodec | raw" } else { " | intodec2 | raw" });
     let mut decoded = 0usize;
     let total_syms = encoded.len();
-    // sequential decode of a prefix (sometimes everything, sometimes one symbol too many)
+    // sequential decode of a prefix (sometimes everything, sometimes one symbol too many); runs of
+    // one model are sometimes decoded with the batch forms, possibly interrupted by an `Err` item
     let k = if rng.chance(2, 3) { total_syms } else { rng.below(total_syms as u128 + 1) as usize };
-    for (b, p, cdf) in &encoded[..k] {
-        line.push_str(&format!(" | dec {:x} {:x} {}", b, p, show_list(cdf.clone())));
+    let mut i = 0usize;
+    while i < k {
+        let (b, p, cdf) = &encoded[i];
+        let mut run = 1usize;
+        while i + run < k && encoded[i + run] == encoded[i] {
+            run += 1;
+        }
+        if rng.chance(1, 2) && (run >= 2 || rng.chance(1, 4)) {
+            let form = rng.next() % 3;
+            let n = 1 + rng.below(run as u128) as usize;
+            let err_at = if form == 1 && rng.chance(1, 2) { Some(rng.below(n as u128) as usize) } else { None };
+            line.push_str(&format!(" | decs {:x} {:x} {:x} {} {:x} {}", b, p, form, show_list(cdf.clone()), n, err_at.map(|j| hex(j as u128)).unwrap_or("-".into())));
+            i += err_at.unwrap_or(n);
+        } else {
+            line.push_str(&format!(" | dec {:x} {:x} {}", b, p, show_list(cdf.clone())));
+            i += 1;
+        }
     }
-    line.push_str(" | exhausted | raw");
+    line.push_str(" | exhausted | exhausted2 | raw");
     if rng.chance(1, 5) {
         let (b, p) = pick_bp(rng, bps);
         line.push_str(&format!(" | dec {:x} {:x} {} | exhausted", b, p, show_list(gen_cdf(rng, p))));
@@ -473,12 +514,12 @@ fn gen_dec_history<C: RangeCombo>(rng: &mut Rng, w: u32, s: u32, bps: &[(u32, Ve
         let pos = if exh_edge { ws.len() as u128 } else { match rng.next() % 8 { 0 => ws.len() as u128 + 1, _ => rng.below(ws.len() as u128 + 1) } };
         line.push_str(&format!("rawdec {} {:x} {:x} {:x} {:x} | exhausted", show_list(ws.clone()), pos, lower, range, point));
     } else {
-        line.push_str(&format!("words {}", show_list(ws.clone())));
+        line.push_str(&format!("{} {}", if rng.chance(1, 3) { "borrowed" } else { "words" }, show_list(ws.clone())));
     }
     let n = rng.next() % 16;
     let mut next_model = 0usize;
     for _ in 0..n {
-        let op = match rng.next() % 12 {
+        let op = match rng.next() % 13 {
             0..=6 => {
                 // mostly the right models in the right order, sometimes a wrong one
                 if next_model < encoded.len() && rng.chance(4, 5) {
@@ -490,7 +531,15 @@ fn gen_dec_history<C: RangeCombo>(rng: &mut Rng, w: u32, s: u32, bps: &[(u32, Ve
                     format!("dec {:x} {:x} {}", b, p, show_list(gen_cdf(rng, p)))
                 }
             }
-            7 => "exhausted".into(),
+            7 => if rng.chance(1, 2) { "exhausted".into() } else { "exhausted2".into() },
+            11 => {
+                let (b, p, cdf) = if next_model < encoded.len() { encoded[next_model].clone() } else { let (b, p) = pick_bp(rng, bps); (b, p, gen_cdf(rng, p)) };
+                let form = rng.next() % 3;
+                let n = (rng.next() % 5) as usize;
+                let err_at = if form == 1 && n > 0 && rng.chance(1, 2) { Some(rng.below(n as u128) as usize) } else { None };
+                next_model = encoded.len();
+                format!("decs {:x} {:x} {:x} {} {:x} {}", b, p, form, show_list(cdf), n, err_at.map(|j| hex(j as u128)).unwrap_or("-".into()))
+            }
             8 => "raw".into(),
             9 | 10 => {
                 let thr = pow2(s - w);
